@@ -252,6 +252,11 @@ func verifHook(point string, t *Tunnel, args ...interface{}) {
 			if t.rwc != nil {
 				verifState.byConn[interface{}(t.rwc)] = t
 			}
+		case "legacy.in.drained", "reg.begin":
+			// (again: the transport may have been attached after the hook point above was passed)
+			if t.transportIn != nil {
+				verifState.byConn[interface{}(t.transportIn)] = t
+			}
 		case "proc.recv":
 			// the packet loop is the goroutine this runs on: the user the tunnel acts for at this packet
 			if t.User != nil {
